@@ -67,7 +67,9 @@ func StringEscape(a String, ascii bool) string {
 			}
 			out.WriteRune(c)
 		case c < 0x100:
-			if ascii || strconv.IsPrint(c) {
+			// in ascii mode only the ASCII characters of an already
+			// quoted repr pass through; é, ÿ ... become \xNN
+			if c < 0x7F || (!ascii && strconv.IsPrint(c)) {
 				out.WriteRune(c)
 			} else {
 				fmt.Fprintf(&out, "\\x%02x", c)
